@@ -28,6 +28,49 @@ type VC struct {
 	smtStr   bool // use the SMT String theory for Go strings
 	tags     map[string]int
 	tagNames []string
+	axioms   []vcAxiom // contract-file axioms: included in a query only when the symbols they talk about occur in it
+}
+
+type vcAxiom struct {
+	text  string
+	syms  []string
+	label string
+}
+
+// UsedAxioms: labels of the axioms whose symbols occur somewhere in this VC.
+func (v *VC) UsedAxioms() []string {
+	all := strings.Join(v.defs, "\n")
+	var out []string
+	for _, ax := range v.axioms {
+		use := true
+		for _, sy := range ax.syms {
+			if strings.HasPrefix(sy, "str!") {
+				continue
+			}
+			if !strings.Contains(all, sy) {
+				use = false
+				break
+			}
+		}
+		if use {
+			out = append(out, ax.label)
+		}
+	}
+	return out
+}
+
+var axSymRe = regexp.MustCompile(`(gf![A-Za-z0-9_!.]+|sprintf![A-Za-z0-9_!.]+|str![0-9]+|floormul)`)
+
+func (v *VC) AddAxiom(term, label string) {
+	seen := map[string]bool{}
+	var syms []string
+	for _, m := range axSymRe.FindAllString(term, -1) {
+		if !seen[m] {
+			seen[m] = true
+			syms = append(syms, m)
+		}
+	}
+	v.axioms = append(v.axioms, vcAxiom{fmt.Sprintf("(assert %s)", term), syms, label})
 }
 
 func NewVC(smtStrings bool) *VC {
@@ -191,10 +234,30 @@ func (o *Obligation) Query(extra string) string {
 	if n > len(v.defs) {
 		n = len(v.defs)
 	}
+	var body strings.Builder
 	for _, d := range v.defs[:n] {
-		b.WriteString(d)
-		b.WriteByte('\n')
+		body.WriteString(d)
+		body.WriteByte('\n')
 	}
+	bodyS := body.String()
+	goal := strings.Join(o.Disj, " ") + " " + extra
+	for _, ax := range v.axioms {
+		use := true
+		for _, sy := range ax.syms {
+			if strings.HasPrefix(sy, "str!") {
+				continue // literals are always declared; they do not make an axiom relevant by themselves
+			}
+			if !strings.Contains(bodyS, sy) && !strings.Contains(goal, sy) {
+				use = false
+				break
+			}
+		}
+		if use {
+			b.WriteString(ax.text)
+			b.WriteByte('\n')
+		}
+	}
+	b.WriteString(bodyS)
 	if len(o.Disj) == 1 {
 		fmt.Fprintf(&b, "(assert %s)\n", o.Disj[0])
 	} else {
